@@ -1706,3 +1706,86 @@ Qed.
 (* binary flag agreement *)
 Lemma ws_send_flag bin p : ws_step bin true (WSend (SerOk p)) = (true, [WSendMessage p bin]).
 Proof. reflexivity. Qed.
+
+(* ---------------------------------------------------------------------------------------------------------- *)
+(* 11. announced receive limit = enforced receive limit (over the expressions translated from the source)        *)
+(* ---------------------------------------------------------------------------------------------------------- *)
+Lemma log2_up_range m : 512 <= m <= 16777216 -> 9 <= N.log2_up m <= 24.
+Proof.
+  intros [H1 H2]. split.
+  - change 9 with (N.log2_up 512). now apply N.log2_up_le_mono.
+  - change 24 with (N.log2_up 16777216). now apply N.log2_up_le_mono.
+Qed.
+
+Lemma pow_log2_up_ge m : 512 <= m -> m <= 2 ^ N.log2_up m.
+Proof. intros H. destruct (N.log2_up_spec m) as [_ H2]; [lia|exact H2]. Qed.
+
+Lemma announced_is_enforced m : 512 <= m <= 16777216 ->
+  gen_tx_server_recv_limit m = 2 ^ (9 + gen_tx_server_announce_nibble m) /\
+  gen_tx_client_recv_limit m = 2 ^ (9 + gen_tx_client_announce_nibble m) /\
+  gen_tx_server_announce_nibble m <= 15 /\ gen_tx_client_announce_nibble m <= 15 /\
+  m <= gen_tx_server_recv_limit m /\ m <= gen_tx_client_recv_limit m /\
+  gen_aio_default_max_length = 2 ^ (9 + gen_aio_default_length_exp).
+Proof.
+  intros H. pose proof (log2_up_range m H) as [L1 L2]. pose proof (pow_log2_up_ge m (proj1 H)) as P.
+  unfold gen_tx_server_recv_limit, gen_tx_client_recv_limit, gen_tx_server_announce_nibble, gen_tx_client_announce_nibble.
+  replace (9 + (N.log2_up m - 9)) with (N.log2_up m) by lia.
+  repeat split; try reflexivity; try lia; exact P.
+Qed.
+
+(* the nibble the hand-written handshake model writes (tx_rexp - 9, aio_lexp) is the one the source announces *)
+Definition announced_nibble (c : cfg) : N :=
+  match c_impl c with Tx => tx_rexp c - 9 | Aio => aio_lexp end.
+
+Lemma model_announces_source_nibble c :
+  gen_tx_server_announce_nibble (c_max c) = tx_rexp c - 9 /\ gen_tx_client_announce_nibble (c_max c) = tx_rexp c - 9 /\
+  aio_lexp = gen_aio_default_length_exp /\
+  conn_made {| c_impl := Tx; c_role := Client; c_sers := c_sers c; c_max := c_max c; c_open_raises := c_open_raises c |} =
+    [Write [127; octet2 (gen_tx_client_announce_nibble (c_max c)) (own_ser c); 0; 0]] /\
+  conn_made {| c_impl := Aio; c_role := Client; c_sers := c_sers c; c_max := c_max c; c_open_raises := c_open_raises c |} =
+    [Write [127; octet2 gen_aio_default_length_exp (own_ser c); 0; 0]].
+Proof. repeat split; reflexivity. Qed.
+
+Lemma recv_limit_is_announced c :
+  512 <= c_max c <= 16777216 -> (c_impl c = Aio -> c_max c = gen_aio_default_max_length) ->
+  recv_max c = 2 ^ (9 + announced_nibble c) /\ announced_nibble c <= 15.
+Proof.
+  intros H Ha. destruct (announced_is_enforced (c_max c) H) as [E1 [E2 [B1 [B2 _]]]].
+  unfold recv_max, announced_nibble. destruct (c_impl c); destruct (c_role c).
+  - split; [exact E1|exact B1].
+  - split; [exact E2|exact B2].
+  - split; [now rewrite Ha|unfold aio_lexp; lia].
+  - split; [now rewrite Ha|unfold aio_lexp; lia].
+Qed.
+
+(* a frame of exactly the announced size passes the header check of every implementation/role, one octet more does not *)
+Lemma announced_frame_accepted c n tail :
+  512 <= c_max c <= 16777216 -> (c_impl c = Aio -> c_max c = gen_aio_default_max_length) ->
+  recv_max c < n -> n < 16777216 ->
+  snd (frame_feed c (FOpen [] None) (enc32 n ++ tail)) =
+    match c_impl c with Tx => [FEscaped EPayloadExceeded] | Aio => [FLose] end.
+Proof.
+  intros H Ha Hn Hn2. unfold frame_feed. destruct (c_impl c).
+  - rewrite tx_recv_limit by lia. reflexivity.
+  - rewrite aio_recv_limit by lia. reflexivity.
+Qed.
+
+(* ---------------------------------------------------------------------------------------------------------- *)
+(* 12. asyncio WebSocket adapter: segments reach the engine in arrival order, however many arrive per iteration   *)
+(* ---------------------------------------------------------------------------------------------------------- *)
+Lemma adapter_order : forall ins q,
+  snd (adapter_run q (ins ++ [ATurn])) = q ++ received ins.
+Proof.
+  assert (Pb : gen_aio_ws_push_back = true) by reflexivity.
+  assert (Pf : gen_aio_ws_pop_front = true) by reflexivity.
+  induction ins as [|i r IH]; intros q.
+  - cbn [app adapter_run adapter_step snd received]. unfold q_drain. rewrite Pf. now rewrite !app_nil_r.
+  - cbn [app adapter_run]. destruct i as [d|]; cbn [adapter_step received].
+    + specialize (IH (q_push q d)). destruct (adapter_run (q_push q d) (r ++ [ATurn])) as [q2 o2]. cbn [snd app] in *.
+      rewrite IH. unfold q_push. rewrite Pb. now rewrite <- app_assoc.
+    + specialize (IH []). destruct (adapter_run [] (r ++ [ATurn])) as [q2 o2]. cbn [snd app] in *.
+      rewrite IH. unfold q_drain. now rewrite Pf.
+Qed.
+
+Lemma adapter_stream ins : concat (snd (adapter_run [] (ins ++ [ATurn]))) = concat (received ins).
+Proof. now rewrite adapter_order. Qed.
